@@ -199,6 +199,19 @@ DATA_API = [
     (r"match_type::Match::new$", ("token_type", "span"), {"token_type": "token_type", "span": "span"}, {}),
     (r"span::Span::new$", ("start", "end"), {"start": "start", "end": "end"}, {}),
     (r"position::Position::new$", ("line", "column"), {"line": "line", "column": "column"}, {}),
+    # ... and a getter returns its field
+    (r"match_type::Match::start$", (), "self.span.start", {}),
+    (r"match_type::Match::end$", (), "self.span.end", {}),
+    (r"match_type::Match::span$", (), "self.span", {}),
+    (r"match_type::Match::token_type$", (), "self.token_type", {}),
+    (r"match_type::MatchExt::start$", (), "self.span.start", {}),
+    (r"match_type::MatchExt::end$", (), "self.span.end", {}),
+    (r"match_type::MatchExt::span$", (), "self.span", {}),
+    (r"match_type::MatchExt::token_type$", (), "self.token_type", {}),
+    (r"match_type::MatchExt::start_position$", (), "self.start_position", {}),
+    (r"match_type::MatchExt::end_position$", (), "self.end_position", {}),
+    (r"position::Position::line$", (), "self.line", {}),
+    (r"position::Position::column$", (), "self.column", {}),
 ]
 
 
